@@ -11,16 +11,12 @@ package c05
 //   - every INSERT block is rectangular and well-formed, every promise is answered;
 //   - (handler target) a well-formed probe push afterwards is acknowledged and intact.
 //
-// Regions of recorded findings that are not repaired in every tree are skipped by
-// construction (a fuzz worker stops at the first crasher): remote write with >= 1000
-// samples (C03-rw-type-array-at-flush) and profiles whose name + body exceed 1 MiB
-// (DESIGN.md section 4 item 7).
+// No region is excluded: the findings that used to be skipped here (remote write with
+// >= 1000 samples, profiles over 1 MiB) are repaired in the tree.
 
 import (
 	"bytes"
-	"compress/gzip"
 	"fmt"
-	"io"
 	"net/http"
 	"net/http/httptest"
 	"net/url"
@@ -29,8 +25,6 @@ import (
 	"time"
 
 	"github.com/golang/snappy"
-	"github.com/metrico/qryn/writer/utils/proto/prompb"
-	"google.golang.org/protobuf/proto"
 	"pgregory.net/rapid"
 
 	"qrynverif/gen"
@@ -183,24 +177,9 @@ func FuzzLokiProto(f *testing.F) {
 	})
 }
 
-func promSamples(raw []byte) int {
-	var wr prompb.WriteRequest
-	if proto.Unmarshal(raw, &wr) != nil {
-		return 0
-	}
-	n := 0
-	for _, ts := range wr.GetTimeseries() {
-		n += len(ts.GetSamples())
-	}
-	return n
-}
-
 func FuzzPromRemoteWrite(f *testing.F) {
 	addBodies(f, "prom-rw", "proto")
 	f.Fuzz(func(t *testing.T, raw []byte) {
-		if promSamples(raw) >= 1000 {
-			t.Skip() // C03-rw-type-array-at-flush
-		}
 		serve(t, "POST", "/api/v1/prom/remote/write", "", "application/x-protobuf", "", snappy.Encode(nil, raw), false)
 	})
 }
@@ -293,15 +272,6 @@ func FuzzOTLPTraces(f *testing.F) {
 	})
 }
 
-func inflated(b []byte) int {
-	zr, err := gzip.NewReader(bytes.NewReader(b))
-	if err != nil {
-		return len(b)
-	}
-	n, _ := io.Copy(io.Discard, io.LimitReader(zr, 64<<20))
-	return int(n)
-}
-
 var profileParamSeeds = [][3]string{{"1705320000", "1705320010", "app{a=b}"}, {"0", "0", "app"}, {"1", "abc", "{"}, {"18446744073709551615", "1", "app{a=b,c}"},
 	{"999999999999999999", "1000000000000000000", "}{"}, {"-1", "", "app{=}"}}
 
@@ -316,9 +286,6 @@ func FuzzProfileMultipart(f *testing.F) {
 		f.Add(b, p[0], p[1], p[2])
 	}
 	f.Fuzz(func(t *testing.T, body []byte, from, until, name string) {
-		if len(name)+len(body) > 1<<20 {
-			t.Skip() // the decompressor in front of this decoder stops at 100000 bytes
-		}
 		q := url.Values{"from": {from}, "until": {until}, "name": {name}}.Encode()
 		ct := "multipart/form-data; boundary=" + mpBoundary
 		serve(t, "POST", "/ingest", q, ct, "", body, false)
@@ -334,9 +301,6 @@ func FuzzProfileBinary(f *testing.F) {
 		}
 	}
 	f.Fuzz(func(t *testing.T, body []byte, from, until, name string) {
-		if len(name)+inflated(body) > 1<<20 {
-			t.Skip() // DESIGN.md section 4 item 7: profile over 1 MiB
-		}
 		q := url.Values{"from": {from}, "until": {until}, "name": {name}}.Encode()
 		serve(t, "POST", "/ingest", q, "binary/octet-stream", "", body, false)
 	})
@@ -348,7 +312,7 @@ func FuzzHandler(f *testing.F) {
 	g := rapid.Custom(genReq(false))
 	for i := 0; i < 60; i++ {
 		c := g.Example(i + 1)
-		if len(c.Body) > 64<<10 {
+		if len(c.Body) > 64<<10 || c.Fill != nil {
 			continue
 		}
 		ri := 0
@@ -366,18 +330,6 @@ func FuzzHandler(f *testing.F) {
 	f.Fuzz(func(t *testing.T, route uint8, ct, ce, query string, body []byte) {
 		rd := routes[int(route)%len(routes)]
 		path := strings.NewReplacer("{target}", "logs", "{id}", "1").Replace(rd.path)
-		if strings.HasPrefix(rd.name, "prom-") {
-			b := body
-			if u, err := snappy.Decode(nil, body); err == nil {
-				b = u
-			}
-			if promSamples(b) >= 1000 || ce != "" {
-				t.Skip() // C03-rw-type-array-at-flush (an encoded body is not inspected: skipped as well)
-			}
-		}
-		if rd.name == "ingest" && (len(query)+inflated(body) > 1<<20 || ce != "") {
-			t.Skip() // DESIGN.md section 4 item 7
-		}
 		serve(t, rd.method, path, query, ct, ce, body, true)
 	})
 }
